@@ -58,7 +58,11 @@ inductive PStep : PSys → PSys → Prop
   | send (S : PSys) (i : Nat) (cl : PClient) :
       S.clients[i]? = some cl →
       PStep S { S with reqs := S.reqs ++ [⟨i, cl.cp.sseq, cl.buf.drop cl.cp.cseq⟩] }
-  /-- the server serves any request ever sent: `pushOps` from ⟨end of log, recorded cseq⟩ accepts -/
+  /-- the server serves any request ever sent (`processPack`, success shape): `pushOps` runs from
+      `cp1 = ⟨end of log, recorded cseq⟩`; the accepted operations are appended; the pulled operations
+      are the OLD log after the request's sseq; the answer's and the recorded checkpoint is `pushOps`'
+      result `cp2` = (end of log after the push, cseq after the push) (`cp3` of `processPack` equals it
+      on a gapless log, see `SL.cp3_spec`) -/
   | serve (S : PSys) (r : PReq) (cl : PClient) (cp2 : CheckPoint) (docs : List OpDoc) :
       r ∈ S.reqs → S.clients[r.i]? = some cl →
       pushOps pDuid pCol ⟨S.log.length, (S.recOf cl.cuid).cseq⟩ r.ops [] = .ok (cp2, docs) →
@@ -679,6 +683,7 @@ theorem pinv_init {cuids : List String} (hnd : cuids.Nodup) : PInv (PSys.init cu
   · intro p hp; simp [PSys.init] at hp
 
 end PR
+open PR
 
 /-- **The protocol invariant** holds in every reachable state, under any interleaving, duplication,
     loss and delay of requests and responses. -/
@@ -686,5 +691,325 @@ theorem proto_inv {cuids : List String} {S : PSys} (h : PReach cuids S) : PInv S
   induction h with
   | init hnd => exact pinv_init hnd
   | step _ st ih => exact pinv_step ih st
+
+/-- J1–J3 spelled out for every client of a reachable state -/
+theorem proto_inv_client {cuids : List String} {S : PSys} (h : PReach cuids S) : ∀ cl ∈ S.clients,
+    -- J1
+    S.log.filter (fun o => o.id.cuid = cl.cuid) = cl.buf.take (S.recOf cl.cuid).cseq ∧
+    -- J2
+    cl.cp.sseq ≤ S.log.length ∧
+    ((S.log.take cl.cp.sseq).filter (fun o => o.id.cuid = cl.cuid)).length = cl.cp.cseq ∧
+    cl.cp.cseq ≤ (S.recOf cl.cuid).cseq ∧ (S.recOf cl.cuid).cseq ≤ cl.buf.length ∧
+    -- J3: exactly once, in log order
+    cl.applied = (S.log.take cl.cp.sseq).filter (fun o => o.id.cuid ≠ cl.cuid) := by
+  intro cl hcl
+  obtain ⟨i, hi⟩ := List.mem_iff_getElem?.1 hcl
+  have c := (proto_inv h).cli i cl hi
+  exact ⟨c.j1, c.sLe, c.j2, c.cLe, c.rcLe, c.j3⟩
+
+/-- liveness side of the retry: in a reachable state the server never refuses a request ever sent -/
+theorem never_refused {cuids : List String} {S : PSys} (h : PReach cuids S) {r : PReq} {cl : PClient}
+    (hr : r ∈ S.reqs) (hi : S.clients[r.i]? = some cl) :
+    ∃ cp2 docs, pushOps pDuid pCol ⟨S.log.length, (S.recOf cl.cuid).cseq⟩ r.ops [] = .ok (cp2, docs) :=
+  serve_never_refused ((proto_inv h).cli r.i cl hi) ((proto_inv h).req r hr cl hi) _
+
+/-! ## The log holds exactly the issued-and-accepted operations, each once -/
+
+theorem log_is_exactly_issued {cuids : List String} {S : PSys} (h : PReach cuids S) :
+    ∀ o, o ∈ S.log ↔ ∃ cl ∈ S.clients, o ∈ cl.buf.take (S.recOf cl.cuid).cseq := by
+  have inv := proto_inv h
+  intro o
+  constructor
+  · intro ho
+    obtain ⟨i, cl, hi, hu⟩ := inv.logCuid o ho
+    refine ⟨cl, List.mem_of_getElem? hi, ?_⟩
+    rw [← (inv.cli i cl hi).j1]
+    exact List.mem_filter.2 ⟨ho, by simp [hu]⟩
+  · rintro ⟨cl, hcl, ho⟩
+    obtain ⟨i, hi⟩ := List.mem_iff_getElem?.1 hcl
+    rw [← (inv.cli i cl hi).j1] at ho
+    exact (List.mem_filter.1 ho).1
+
+namespace PR
+
+theorem nodup_of_classes (l : List Op) (h : ∀ u, ((own u l).map (·.id.seq)).Nodup) :
+    (l.map (fun o => (o.id.cuid, o.id.seq))).Nodup := by
+  induction l with
+  | nil => simp
+  | cons x xs ih =>
+    simp only [List.map_cons, List.nodup_cons]
+    constructor
+    · intro hm
+      obtain ⟨y, hy, hyx⟩ := List.mem_map.1 hm
+      simp only [Prod.mk.injEq] at hyx
+      have := h x.id.cuid
+      simp only [own, List.filter_cons, decide_true, if_true, List.map_cons, List.nodup_cons] at this
+      exact this.1 (List.mem_map.2 ⟨y, List.mem_filter.2 ⟨hy, by simp [hyx.1]⟩, hyx.2⟩)
+    · apply ih
+      intro u
+      have := h u
+      simp only [own, List.filter_cons] at this
+      split at this
+      · simp only [List.map_cons, List.nodup_cons] at this; exact this.2
+      · exact this
+
+theorem seq_nodup {L : List Op} {rc : Nat} {cl : PClient} (h : CInv L rc cl) :
+    ((cl.buf.take rc).map (·.id.seq)).Nodup := by
+  rw [List.Nodup, List.pairwise_iff_getElem]
+  intro i j hi hj hij
+  simp only [List.getElem_map, List.getElem_take]
+  simp only [List.length_map, List.length_take] at hi hj
+  rw [(h.bufOk i (by omega)).1, (h.bufOk j (by omega)).1]
+  omega
+
+end PR
+
+/-- each accepted operation is stored exactly once: no (client, seq) pair occurs twice in the log -/
+theorem log_ids_nodup {cuids : List String} {S : PSys} (h : PReach cuids S) :
+    (S.log.map (fun o => (o.id.cuid, o.id.seq))).Nodup := by
+  have inv := proto_inv h
+  apply nodup_of_classes
+  intro u
+  by_cases hex : ∃ (i : Nat) (cl : PClient), S.clients[i]? = some cl ∧ cl.cuid = u
+  · obtain ⟨i, cl, hi, hu⟩ := hex
+    subst hu
+    rw [(inv.cli i cl hi).j1]
+    exact seq_nodup (inv.cli i cl hi)
+  · have : own u S.log = [] := by
+      apply own_of_all_frn
+      intro o ho hou
+      obtain ⟨i, cl, hi, hu⟩ := inv.logCuid o ho
+      exact hex ⟨i, cl, hi, hu.trans hou⟩
+    rw [this]; simp
+
+theorem log_nodup {cuids : List String} {S : PSys} (h : PReach cuids S) : S.log.Nodup :=
+  List.Pairwise.of_map (fun o => (o.id.cuid, o.id.seq)) (fun a b hab e => hab (by rw [e])) (log_ids_nodup h)
+
+/-! ## Monotonicity -/
+
+/-- a client's checkpoint never moves backwards, whatever is delivered in whatever order -/
+theorem checkpoint_monotone {S S' : PSys} (st : PStep S S') :
+    ∀ (i : Nat) (cl : PClient), S.clients[i]? = some cl →
+      ∃ cl', S'.clients[i]? = some cl' ∧ cl'.cuid = cl.cuid ∧
+        cl.cp.sseq ≤ cl'.cp.sseq ∧ cl.cp.cseq ≤ cl'.cp.cseq := by
+  intro i cl hi
+  have hlt : i < S.clients.length := (List.getElem?_eq_some_iff.1 hi).1
+  have same : ∃ cl', S.clients[i]? = some cl' ∧ cl'.cuid = cl.cuid ∧
+      cl.cp.sseq ≤ cl'.cp.sseq ∧ cl.cp.cseq ≤ cl'.cp.cseq := ⟨cl, hi, rfl, Nat.le_refl _, Nat.le_refl _⟩
+  cases st with
+  | localOp j cl0 o hj hu hs =>
+    show ∃ cl', (S.clients.set j _)[i]? = some cl' ∧ _
+    by_cases hji : j = i
+    · subst hji
+      rw [hi] at hj; cases hj
+      exact ⟨_, List.getElem?_set_self hlt, rfl, Nat.le_refl _, Nat.le_refl _⟩
+    · rw [List.getElem?_set_ne hji]; exact same
+  | send j cl0 hj => exact same
+  | serve r cl0 cp2 docs hr hj hp => exact same
+  | refuse r cl0 code hr hj hp => exact same
+  | deliver p cl0 hp hj =>
+    show ∃ cl', (S.clients.set p.i _)[i]? = some cl' ∧ _
+    by_cases hji : p.i = i
+    · rw [hji] at hj ⊢
+      rw [hi] at hj; cases hj
+      refine ⟨_, List.getElem?_set_self hlt, rfl, ?_, ?_⟩
+      · show cl.cp.sseq ≤ max cl.cp.sseq p.cp.sseq; omega
+      · show cl.cp.cseq ≤ max cl.cp.cseq p.cp.cseq; omega
+    · rw [List.getElem?_set_ne hji]; exact same
+
+/-- the server's records never move backwards, and the log only grows by appending -/
+theorem server_monotone {S S' : PSys} (inv : PInv S) (st : PStep S S') :
+    (∀ u, (S.recOf u).sseq ≤ (S'.recOf u).sseq ∧ (S.recOf u).cseq ≤ (S'.recOf u).cseq) ∧
+    ∃ acc, S'.log = S.log ++ acc := by
+  have same : (∀ u, (S.recOf u).sseq ≤ (S.recOf u).sseq ∧ (S.recOf u).cseq ≤ (S.recOf u).cseq) ∧
+      ∃ acc, S.log = S.log ++ acc := ⟨fun u => ⟨Nat.le_refl _, Nat.le_refl _⟩, [], by simp⟩
+  cases st with
+  | localOp j cl0 o hj hu hs => exact same
+  | send j cl0 hj => exact same
+  | refuse r cl0 code hr hj hp => exact same
+  | deliver p cl0 hp hj => exact same
+  | serve r cl0 cp2 docs hr hj hp =>
+    refine ⟨?_, _, rfl⟩
+    intro u
+    by_cases hu : u = cl0.cuid
+    · subst hu
+      rw [recOf_alSet_self]
+      obtain ⟨add, _, _, _, h4, _, h6⟩ := SL.pushOps_spec _ _ _ _ _ _ _ hp
+      have := inv.recS cl0.cuid
+      simp only [] at h4 h6
+      exact ⟨by omega, h6⟩
+    · rw [recOf_alSet_ne _ _ _ _ hu]; exact ⟨Nat.le_refl _, Nat.le_refl _⟩
+
+/-! ## Convergence -/
+
+theorem frn_eq_not (u : String) (l : List Op) :
+    PR.frn u l = l.filter (fun o => !(decide (o.id.cuid = u))) := by
+  unfold PR.frn; congr 1; funext o; simp
+
+/-- at quiescence (every client has seen the whole log and has everything acknowledged) every client
+    holds every operation exactly once: its own ones and each foreign one -/
+theorem quiescent_converged {cuids : List String} {S : PSys} (h : PReach cuids S)
+    (hq : ∀ cl ∈ S.clients, cl.cp.sseq = S.log.length ∧ cl.cp.cseq = cl.buf.length) :
+    ∀ cl ∈ S.clients, (cl.applied ++ cl.buf).Perm S.log := by
+  intro cl hcl
+  obtain ⟨i, hi⟩ := List.mem_iff_getElem?.1 hcl
+  have c := (proto_inv h).cli i cl hi
+  obtain ⟨q1, q2⟩ := hq cl hcl
+  have happ : cl.applied = frn cl.cuid S.log := by
+    rw [c.j3, q1, List.take_length]
+  have hbuf : cl.buf = own cl.cuid S.log := by
+    have := c.cLe; have := c.rcLe
+    rw [c.j1, List.take_of_length_le (by omega)]
+  rw [happ, hbuf, frn_eq_not]
+  exact List.perm_append_comm.trans (List.filter_append_perm _ _)
+
+/-- … and in the same order everywhere: what it applied is the foreign subsequence of the log, in log
+    order, and its buffer is the own subsequence of the log -/
+theorem quiescent_converged_order {cuids : List String} {S : PSys} (h : PReach cuids S)
+    (hq : ∀ cl ∈ S.clients, cl.cp.sseq = S.log.length ∧ cl.cp.cseq = cl.buf.length) :
+    ∀ cl ∈ S.clients, cl.applied = S.log.filter (fun o => o.id.cuid ≠ cl.cuid) ∧
+      cl.buf = S.log.filter (fun o => o.id.cuid = cl.cuid) := by
+  intro cl hcl
+  obtain ⟨i, hi⟩ := List.mem_iff_getElem?.1 hcl
+  have c := (proto_inv h).cli i cl hi
+  obtain ⟨q1, q2⟩ := hq cl hcl
+  constructor
+  · have := c.j3; rw [q1, List.take_length] at this; exact this
+  · have := c.cLe; have := c.rcLe
+    have h1 := c.j1
+    rw [List.take_of_length_le (by omega)] at h1
+    exact h1.symm
+
+/-! ## C07: duplicates, losses and delays leave no trace -/
+
+/-- What a client has applied (and what it counts as acknowledged) is a function of the log prefix it
+    has seen: any two reachable states — reached through whatever different histories of duplicated,
+    lost, delayed, reordered requests and responses — that agree on that prefix agree on `applied`. -/
+theorem as_if_once {cuids₁ cuids₂ : List String} {S₁ S₂ : PSys} (h₁ : PReach cuids₁ S₁) (h₂ : PReach cuids₂ S₂)
+    {cl₁ cl₂ : PClient} (m₁ : cl₁ ∈ S₁.clients) (m₂ : cl₂ ∈ S₂.clients) (hu : cl₁.cuid = cl₂.cuid)
+    (hlog : S₁.log.take cl₁.cp.sseq = S₂.log.take cl₂.cp.sseq) :
+    cl₁.applied = cl₂.applied ∧ cl₁.cp.cseq = cl₂.cp.cseq := by
+  obtain ⟨i, hi⟩ := List.mem_iff_getElem?.1 m₁
+  obtain ⟨j, hj⟩ := List.mem_iff_getElem?.1 m₂
+  have c₁ := (proto_inv h₁).cli i cl₁ hi
+  have c₂ := (proto_inv h₂).cli j cl₂ hj
+  refine ⟨?_, ?_⟩
+  · rw [c₁.j3, c₂.j3, hlog, hu]
+  · rw [← c₁.j2, ← c₂.j2, hlog, hu]
+
+/-- the same for whole states: same log and same sseq per client ⇒ same applied operations, same cseq,
+    and the same acknowledged part of the buffer -/
+theorem as_if_once_states {cuids₁ cuids₂ : List String} {S₁ S₂ : PSys} (h₁ : PReach cuids₁ S₁)
+    (h₂ : PReach cuids₂ S₂) (hlog : S₁.log = S₂.log)
+    {cl₁ cl₂ : PClient} (m₁ : cl₁ ∈ S₁.clients) (m₂ : cl₂ ∈ S₂.clients) (hu : cl₁.cuid = cl₂.cuid)
+    (hs : cl₁.cp.sseq = cl₂.cp.sseq) :
+    cl₁.applied = cl₂.applied ∧ cl₁.cp.cseq = cl₂.cp.cseq ∧
+      cl₁.buf.take (S₁.recOf cl₁.cuid).cseq = cl₂.buf.take (S₂.recOf cl₂.cuid).cseq := by
+  have := as_if_once h₁ h₂ m₁ m₂ hu (by rw [hlog, hs])
+  refine ⟨this.1, this.2, ?_⟩
+  obtain ⟨i, hi⟩ := List.mem_iff_getElem?.1 m₁
+  obtain ⟨j, hj⟩ := List.mem_iff_getElem?.1 m₂
+  rw [← ((proto_inv h₁).cli i cl₁ hi).j1, ← ((proto_inv h₂).cli j cl₂ hj).j1, hlog, hu]
+
+/-! ## Non-vacuity: the classic failure scenario
+
+Client `a` pushes `a1`; the response is lost.  Client `b` pushes `b1` in between.  `a` issues `a2` and
+retries with `[a1, a2]` from its old checkpoint: the server skips `a1` as a duplicate, stores `a2`, and
+answers with the old log `[a1, b1]` and checkpoint (3, 2); `a` applies exactly `[b1]`.  Then the lost
+response arrives after all, the first request is delivered to the server a second time, and its answer
+is delivered too: nothing changes. -/
+namespace PEx
+
+def a1 : Op := ⟨⟨0, 1, "a", 1⟩, .increase 1⟩
+def a2 : Op := ⟨⟨0, 2, "a", 2⟩, .increase 2⟩
+def b1 : Op := ⟨⟨0, 1, "b", 1⟩, .increase 5⟩
+
+def A (buf : List Op) (cp : CheckPoint) (applied : List Op) : PClient := ⟨"a", buf, cp, applied⟩
+def B (buf : List Op) (cp : CheckPoint) (applied : List Op) : PClient := ⟨"b", buf, cp, applied⟩
+
+def reqA0 : PReq := ⟨0, 0, [a1]⟩          -- first request of a
+def reqB0 : PReq := ⟨1, 0, [b1]⟩
+def reqA1 : PReq := ⟨0, 0, [a1, a2]⟩      -- the retry, from the same checkpoint
+def respA0 : PResp := ⟨0, [], ⟨1, 1⟩⟩     -- LOST (delivered only at the very end)
+def respB0 : PResp := ⟨1, [a1], ⟨2, 1⟩⟩
+def respA1 : PResp := ⟨0, [a1, b1], ⟨3, 2⟩⟩
+def respA2 : PResp := ⟨0, [a1, b1, a2], ⟨3, 2⟩⟩   -- answer to the duplicate delivery of reqA0
+
+def E1 : PSys := ⟨[A [a1] ⟨0,0⟩ [], B [] ⟨0,0⟩ []], [], [], [], []⟩
+def E2 : PSys := ⟨[A [a1] ⟨0,0⟩ [], B [] ⟨0,0⟩ []], [], [], [reqA0], []⟩
+def E3 : PSys := ⟨[A [a1] ⟨0,0⟩ [], B [] ⟨0,0⟩ []], [a1], [("a", ⟨1,1⟩)], [reqA0], [respA0]⟩
+def E4 : PSys := ⟨[A [a1] ⟨0,0⟩ [], B [b1] ⟨0,0⟩ []], [a1], [("a", ⟨1,1⟩)], [reqA0], [respA0]⟩
+def E5 : PSys := ⟨[A [a1] ⟨0,0⟩ [], B [b1] ⟨0,0⟩ []], [a1], [("a", ⟨1,1⟩)], [reqA0, reqB0], [respA0]⟩
+def E6 : PSys := ⟨[A [a1] ⟨0,0⟩ [], B [b1] ⟨0,0⟩ []], [a1, b1], [("a", ⟨1,1⟩), ("b", ⟨2,1⟩)],
+                  [reqA0, reqB0], [respA0, respB0]⟩
+def E7 : PSys := ⟨[A [a1, a2] ⟨0,0⟩ [], B [b1] ⟨0,0⟩ []], [a1, b1], [("a", ⟨1,1⟩), ("b", ⟨2,1⟩)],
+                  [reqA0, reqB0], [respA0, respB0]⟩
+def E8 : PSys := ⟨[A [a1, a2] ⟨0,0⟩ [], B [b1] ⟨0,0⟩ []], [a1, b1], [("a", ⟨1,1⟩), ("b", ⟨2,1⟩)],
+                  [reqA0, reqB0, reqA1], [respA0, respB0]⟩
+def E9 : PSys := ⟨[A [a1, a2] ⟨0,0⟩ [], B [b1] ⟨0,0⟩ []], [a1, b1, a2], [("a", ⟨3,2⟩), ("b", ⟨2,1⟩)],
+                  [reqA0, reqB0, reqA1], [respA0, respB0, respA1]⟩
+def E10 : PSys := ⟨[A [a1, a2] ⟨3,2⟩ [b1], B [b1] ⟨0,0⟩ []], [a1, b1, a2], [("a", ⟨3,2⟩), ("b", ⟨2,1⟩)],
+                  [reqA0, reqB0, reqA1], [respA0, respB0, respA1]⟩
+-- E10 → E10 : the lost response respA0 arrives late; nothing changes
+def E12 : PSys := ⟨[A [a1, a2] ⟨3,2⟩ [b1], B [b1] ⟨2,1⟩ [a1]], [a1, b1, a2], [("a", ⟨3,2⟩), ("b", ⟨2,1⟩)],
+                  [reqA0, reqB0, reqA1], [respA0, respB0, respA1]⟩
+def E13 : PSys := ⟨[A [a1, a2] ⟨3,2⟩ [b1], B [b1] ⟨2,1⟩ [a1]], [a1, b1, a2], [("a", ⟨3,2⟩), ("b", ⟨2,1⟩)],
+                  [reqA0, reqB0, reqA1], [respA0, respB0, respA1, respA2]⟩
+-- E13 → E13 : respA2 is delivered; nothing changes
+
+theorem reach : PReach ["a", "b"] E13 := by
+  have h0 : PReach ["a", "b"] (PSys.init ["a", "b"]) := .init (by decide)
+  have h1 : PReach ["a", "b"] E1 := .step h0 (.localOp _ 0 (A [] ⟨0,0⟩ []) a1 rfl rfl rfl)
+  have h2 : PReach ["a", "b"] E2 := .step h1 (.send _ 0 (A [a1] ⟨0,0⟩ []) rfl)
+  have h3 : PReach ["a", "b"] E3 :=
+    .step h2 (.serve _ reqA0 (A [a1] ⟨0,0⟩ []) ⟨1,1⟩ [⟨pDuid, pCol, 1, a1⟩] (by simp [E2]) rfl rfl)
+  have h4 : PReach ["a", "b"] E4 := .step h3 (.localOp _ 1 (B [] ⟨0,0⟩ []) b1 rfl rfl rfl)
+  have h5 : PReach ["a", "b"] E5 := .step h4 (.send _ 1 (B [b1] ⟨0,0⟩ []) rfl)
+  have h6 : PReach ["a", "b"] E6 :=
+    .step h5 (.serve _ reqB0 (B [b1] ⟨0,0⟩ []) ⟨2,1⟩ [⟨pDuid, pCol, 2, b1⟩] (by simp [E5]) rfl rfl)
+  have h7 : PReach ["a", "b"] E7 := .step h6 (.localOp _ 0 (A [a1] ⟨0,0⟩ []) a2 rfl rfl rfl)
+  have h8 : PReach ["a", "b"] E8 := .step h7 (.send _ 0 (A [a1, a2] ⟨0,0⟩ []) rfl)
+  -- the retry is served: a1 skipped as a duplicate, a2 stored
+  have h9 : PReach ["a", "b"] E9 :=
+    .step h8 (.serve _ reqA1 (A [a1, a2] ⟨0,0⟩ []) ⟨3,2⟩ [⟨pDuid, pCol, 3, a2⟩] (by simp [E8]) rfl rfl)
+  have h10 : PReach ["a", "b"] E10 := .step h9 (.deliver _ respA1 (A [a1, a2] ⟨0,0⟩ []) (by simp [E9]) rfl)
+  -- the lost response shows up late
+  have h11 : PReach ["a", "b"] E10 := .step h10 (.deliver _ respA0 (A [a1, a2] ⟨3,2⟩ [b1]) (by simp [E10]) rfl)
+  have h12 : PReach ["a", "b"] E12 := .step h11 (.deliver _ respB0 (B [b1] ⟨0,0⟩ []) (by simp [E10]) rfl)
+  -- the very first request is delivered to the server once more
+  have h13 : PReach ["a", "b"] E13 :=
+    .step h12 (.serve _ reqA0 (A [a1, a2] ⟨3,2⟩ [b1]) ⟨3,2⟩ [] (by simp [E12]) rfl rfl)
+  exact .step h13 (.deliver _ respA2 (A [a1, a2] ⟨3,2⟩ [b1]) (by simp [E13]) rfl)
+
+/-- J3 in that state, from the theorem … -/
+example : ∀ cl ∈ E13.clients, cl.applied = (E13.log.take cl.cp.sseq).filter (fun o => o.id.cuid ≠ cl.cuid) :=
+  fun cl hcl => (proto_inv_client reach cl hcl).2.2.2.2.2
+
+/-- … and by evaluation: `a` applied exactly `[b1]`, `b` exactly `[a1]`, the log is `[a1, b1, a2]` -/
+example : E13.log = [a1, b1, a2] ∧ E13.clients.map (·.applied) = [[b1], [a1]] ∧
+    (E13.log.take 3).filter (fun o => o.id.cuid ≠ "a") = [b1] ∧
+    (E13.log.take 2).filter (fun o => o.id.cuid ≠ "b") = [a1] := ⟨rfl, rfl, rfl, rfl⟩
+
+/-- the hypotheses of `quiescent_converged` are satisfiable: one more round of `b` brings the system to rest -/
+def reqB1 : PReq := ⟨1, 2, []⟩
+def respB1 : PResp := ⟨1, [a2], ⟨3, 1⟩⟩
+def E16 : PSys := ⟨[A [a1, a2] ⟨3,2⟩ [b1], B [b1] ⟨3,1⟩ [a1, a2]], [a1, b1, a2], [("a", ⟨3,2⟩), ("b", ⟨3,1⟩)],
+                  [reqA0, reqB0, reqA1, reqB1], [respA0, respB0, respA1, respA2, respB1]⟩
+
+theorem reach16 : PReach ["a", "b"] E16 := by
+  have h14 : PReach ["a", "b"] (⟨E13.clients, E13.log, E13.cps, E13.reqs ++ [reqB1], E13.resps⟩ : PSys) :=
+    .step reach (.send _ 1 (B [b1] ⟨2,1⟩ [a1]) rfl)
+  have h15 : PReach ["a", "b"]
+      (⟨E13.clients, E13.log, [("a", ⟨3,2⟩), ("b", ⟨3,1⟩)], E13.reqs ++ [reqB1], E13.resps ++ [respB1]⟩ : PSys) :=
+    .step h14 (.serve _ reqB1 (B [b1] ⟨2,1⟩ [a1]) ⟨3,1⟩ [] (by simp [E13]) rfl rfl)
+  exact .step h15 (.deliver _ respB1 (B [b1] ⟨2,1⟩ [a1]) (by simp [E13]) rfl)
+
+example : ∀ cl ∈ E16.clients, (cl.applied ++ cl.buf).Perm E16.log :=
+  quiescent_converged reach16 (by
+    intro cl hcl
+    simp only [E16, List.mem_cons, List.not_mem_nil, or_false] at hcl
+    rcases hcl with rfl | rfl <;> exact ⟨rfl, rfl⟩)
+
+end PEx
 
 end Orda
